@@ -106,6 +106,7 @@ pub struct Ctx {
     pub km: KeyMap,
     family: String,
     order: Vec<String>,
+    bad_forms: std::cell::Cell<usize>,
 }
 
 fn names_for(prop: &str) -> Vec<&'static str> {
@@ -118,7 +119,7 @@ fn names_for(prop: &str) -> Vec<&'static str> {
 impl Ctx {
     pub fn new(family: &str, prop: &str) -> Ctx {
         let names = names_for(prop);
-        Ctx { km: KeyMap::new(family, &names), family: family.to_string(), order: names.iter().map(|s| s.to_string()).collect() }
+        Ctx { km: KeyMap::new(family, &names), family: family.to_string(), order: names.iter().map(|s| s.to_string()).collect(), bad_forms: std::cell::Cell::new(0) }
     }
 
     fn ensure(&mut self, prop: &str) {
@@ -370,8 +371,22 @@ impl Ctx {
             let mb = Metablock::new(signed_over.clone(), &[self.km.sk(by)]).unwrap();
             let mut v = mb.signatures[0].value().as_bytes().to_vec();
             if !s["ok"].as_bool().unwrap() {
-                let i = v.len() / 3;
-                v[i] ^= 0x10;
+                // the forms an invalid signature takes, in turn: one bit flipped; empty; last byte missing;
+                // all zero; one byte too long
+                let form = self.bad_forms.get();
+                self.bad_forms.set(form + 1);
+                match form % 5 {
+                    0 => {
+                        let i = v.len() / 3;
+                        v[i] ^= 0x10;
+                    }
+                    1 => v.clear(),
+                    2 => {
+                        v.pop();
+                    }
+                    3 => v.iter_mut().for_each(|b| *b = 0),
+                    _ => v.push(0x01),
+                }
             }
             sigs.push(make_sig(&self.km.idstr(s["kid"].as_str().unwrap()), &v));
         }
